@@ -35,3 +35,30 @@ Proof.
       rewrite Hc in Hw. discriminate.
     + unfold written. cbn [filter]. rewrite E. apply (IH k Hw Hn Hc).
 Qed.
+
+(* ---------------------------------------------------------------- C15: modes are views of one result *)
+(* what a run emits, in order: (channel, content variable); channel = file variable or "stdout" *)
+Definition outputs (steps : list step) : list (string * string) :=
+  flat_map (fun s => if is_write s then [(fst (snd s), snd (snd s))]
+                     else if is_call s && str_eqb (fst (snd s)) "print" then [("stdout", snd (snd s))]
+                     else []) steps.
+
+(* how often a variable is assigned, and by what *)
+Definition assigners (v : string) (steps : list step) : list string :=
+  flat_map (fun s => if str_eqb (snd (snd s)) v && negb (is_write s) && negb (str_eqb (fst (snd s)) "print")
+                     then [fst (snd s)] else []) steps.
+
+Definition expected_outputs (mode : bool * (bool * bool)) : list (string * string) :=
+  let '(outdir, (only_pkg, only_top)) := mode in
+  (if only_top then [] else [(if outdir then "pkg_file_name" else "stdout", "rendered_pkg")]) ++
+  (if only_pkg then [] else [(if outdir then "top_file_name" else "stdout", "rendered_top")]).
+
+Definition out_eqb (a b : string * string) : bool := str_eqb (fst a) (fst b) && str_eqb (snd a) (snd b).
+
+(* in every mode: the package text is the one value returned by render_package(), the top text the one
+   value returned by render_network(), both computed regardless of the mode, and the run emits
+   exactly the expected views of these two values *)
+Definition mode_ok (m : (bool * (bool * bool)) * list step) : bool :=
+  list_eqb String.eqb (assigners "rendered_pkg" (snd m)) ["network.render_package"] &&
+  list_eqb String.eqb (assigners "rendered_top" (snd m)) ["network.render_network"] &&
+  list_eqb out_eqb (outputs (snd m)) (expected_outputs (fst m)).
